@@ -200,11 +200,14 @@ BAD_TXS = [
 @obligation(tier="quick", parts=len(BAD_TXS) + 1, timeout=300,
             part_names=lambda i: "truncated at a symbolic offset" if i == len(BAD_TXS) else BAD_TXS[i][0],
             bounds="undecodable transactions: 6 catalogue cases + the signed sample truncated at every byte offset 0..len-1 (symbolic); "
-                   "pre-state: a reconnection is pending after an earlier link failure, or not (symbolic)",
+                   "pre-state: a reconnection is pending after an earlier link failure, or not (symbolic); a well-formed sign request was "
+                   "served just before, or the same undecodable request is sent twice (symbolic)",
             examples=[(i, dict(k=0, pending=False)) for i in range(len(BAD_TXS))] + [(len(BAD_TXS), dict(k=10, pending=False)),
                                                                                      (len(BAD_TXS), dict(k=len(TX_SIGNED_1IN) - 1, pending=True)),
-                                                                                     (0, dict(k=0, pending=True))])
-def errors(k: int, pending: bool) -> bool:
+                                                                                     (0, dict(k=0, pending=True)),
+                                                                                     (5, dict(k=0, pending=False, prior=True)),
+                                                                                     (3, dict(k=0, pending=False, prior=False))])
+def errors(k: int, pending: bool, prior: bool = False) -> bool:
     """
     pre: 0 <= k < len(TX_SIGNED_1IN)
     post: _
@@ -217,9 +220,24 @@ def errors(k: int, pending: bool) -> bool:
     req = valid_request("sign", 0)
     req["message"]["tx"] = txhex
     proto, dongle, world = make_stack(c04._device("sign"))
+    if p >= len(BAD_TXS):
+        prior = False          # (the truncation partition explores the offset; history variants are left to the catalogue cases)
+    if prior:
+        # a well-formed sign request was served just before (whatever the manager remembers of it must not leak into this one)
+        if handle(proto, valid_request("sign", 0))[1].get("errorcode") != 0:
+            return False
+        world.exchanges = 0
     proto._comm_issue = pending       # the state an earlier request that hit a link failure leaves behind
     n0 = len(world.log)
     out = handle(proto, req)
+    if not (out == ("reply", {"errorcode": -102}) and world.exchanges == 0 and len(world.log) == n0):
+        return False
+    if prior or p >= len(BAD_TXS):
+        return True
+    # the very same request once more on the same manager (nothing remembered from the first time makes it acceptable)
+    req2 = valid_request("sign", 0)
+    req2["message"]["tx"] = txhex
+    out = handle(proto, req2)
     return out == ("reply", {"errorcode": -102}) and world.exchanges == 0 and len(world.log) == n0
 
 
